@@ -126,6 +126,9 @@ func (s *RelationshipPatternVisitor) EnterOC_RangeLiteral(ctx *parser.OC_RangeLi
 				state = stateSecondIndex
 				sawRange = true
 
+			case parser.CypherLexerSP:
+				// White space is allowed after each part of a range literal
+
 			default:
 				s.ctx.AddErrors(fmt.Errorf("unexpected token in pattern range: %s", typedTokenLeaf.GetText()))
 			}
